@@ -60,6 +60,20 @@ if exe:
                 samples.append({'case': c.name, 'tag': c.tag,
                                 'oracle': c.why, 'lbzip2': r.code(),
                                 'stream_hex': c.data.hex()})
+    # second pass: every case once more under a random configuration
+    # (buffer boundaries inside runs, tables, headers ...)
+    if exe:
+        res, confs = D.run_configs(ck, exe, cases)
+        for c, r, (n, env) in zip(cases, res, confs):
+            evals += 1
+            if r.code() == 'exit0' and (c.expect is None or
+                                        r.out != c.expect):
+                ck.violation(
+                    'lbzip2 -d accepted malformed data or emitted wrong '
+                    'bytes under configuration %s -n%d (case %s, oracle: %s)'
+                    % (env, n, c.name, c.why or 'accepts'),
+                    {'stream_hex': c.data[:200000].hex(), 'case': c.name,
+                     'tag': c.tag, 'oracle_reason': c.why, 'env': env, 'n': n})
 ck.log('oracle distribution:', dist)
 ck.finish({
     'evaluations': evals, 'distinct_nontrivial': nontriv,
